@@ -991,21 +991,36 @@ def _r6(repo, L, m, ba):
         lp_ = ma.params()[0]
         no_skip = not any(isinstance(x, ast.If | ast.Continue | ast.Break) for x in walk_shallow(ma.node)) and not any(g.ifs for x in walk_shallow(ma.node) if isinstance(x, ast.GeneratorExp | ast.ListComp) for g in x.generators)
         adds_ = any("add_scaffold" in norm(c) for c in repo.calls_in(ma))
-        flat = False
-        if len(loops) == 2:
-            flat = is_name(loops[0].iter, lp_) and isinstance(loops[0].target, ast.Name) and norm(loops[1].iter) == f"{loops[0].target.id}.scaffolds"
-        elif len(loops) == 1:
-            it = loops[0].iter
-            # chain.from_iterable(a.scaffolds for a in <list>)
+
+        def _flat_expr(it):
+            """does `it` enumerate every scaffold of every assembly of the parameter, in order?"""
+            if isinstance(it, ast.Call) and dotted(it.func) in ("list", "tuple", "iter") and len(it.args) == 1:
+                return _flat_expr(it.args[0])
             if isinstance(it, ast.Call) and (dotted(it.func) or "").endswith("chain.from_iterable") and len(it.args) == 1 and isinstance(it.args[0], ast.GeneratorExp | ast.ListComp) and len(it.args[0].generators) == 1:
                 g = it.args[0].generators[0]
-                flat = is_name(g.iter, lp_) and isinstance(g.target, ast.Name) and norm(it.args[0].elt) == f"{g.target.id}.scaffolds"
-            elif isinstance(it, ast.GeneratorExp | ast.ListComp) and len(it.generators) == 2:
+                return is_name(g.iter, lp_) and isinstance(g.target, ast.Name) and norm(it.args[0].elt) == f"{g.target.id}.scaffolds"
+            if isinstance(it, ast.GeneratorExp | ast.ListComp) and len(it.generators) == 2:
                 g1, g2 = it.generators
-                flat = is_name(g1.iter, lp_) and isinstance(g1.target, ast.Name) and norm(g2.iter) == f"{g1.target.id}.scaffolds" and is_name(it.elt, g2.target.id if isinstance(g2.target, ast.Name) else "")
-            else:
-                raise AnalysisError(f"merge_assemblies: iteration over '{norm(it)[:60]}' is not a form understood (nested loops, chain.from_iterable, nested comprehension)")
-        okm = flat and no_skip and adds_
+                return is_name(g1.iter, lp_) and isinstance(g1.target, ast.Name) and norm(g2.iter) == f"{g1.target.id}.scaffolds" and is_name(it.elt, g2.target.id if isinstance(g2.target, ast.Name) else "")
+            return None
+
+        flat = None
+        stores_all = [n for n in walk_shallow(ma.node) if isinstance(n, ast.Assign) and any(norm(t).endswith(".scaffolds") for t in n.targets)]
+        exts = [c for c in repo.calls_in(ma) if isinstance(c.func, ast.Attribute) and c.func.attr == "extend" and norm(c.func.value).endswith(".scaffolds")]
+        if len(loops) == 2:
+            flat = is_name(loops[0].iter, lp_) and isinstance(loops[0].target, ast.Name) and norm(loops[1].iter) == f"{loops[0].target.id}.scaffolds"
+            flat = flat and adds_
+        elif len(loops) == 1 and adds_:
+            flat = _flat_expr(loops[0].iter)
+        elif len(loops) == 1 and len(exts) == 1 and is_name(loops[0].iter, lp_) and isinstance(loops[0].target, ast.Name):
+            flat = norm(exts[0].args[0]) == f"{loops[0].target.id}.scaffolds" if exts[0].args else None
+        elif not loops and len(stores_all) == 1 and not exts:
+            flat = _flat_expr(stores_all[0].value)
+        elif not loops and len(exts) == 1 and not stores_all and exts[0].args:
+            flat = _flat_expr(exts[0].args[0])
+        if flat is None or (not flat and no_skip):
+            raise AnalysisError("merge_assemblies: how the scaffolds of the given assemblies are gathered is not a form understood (nested loops, chain.from_iterable, nested comprehension, extend)")
+        okm = flat and no_skip
     L.check(okm, "R6", "merge_assemblies", "merging keeps every scaffold", "merge_assemblies drops scaffolds", ma.loc() if ma else "")
 
 
